@@ -1,13 +1,17 @@
 (** Correspondence driver for C03: a filespace is built from the memfs root by a list of
     constructors (Filespace(p), NewSubFS, NewReadonlyFS, NewEncryptFS); operations with raw path
     arguments are issued through it; compared: each result class/answer and the ROOT tree. *)
-From GC Require Import Common.Base Model.Paths Model.Fs Model.Views Model.ViewsCache Corr.FsCorr.
+From GC Require Import Common.Base Model.Paths Model.Fs Model.Views Model.Cache Model.ViewsCache Corr.FsCorr.
 
 Inductive case :=
 | CView (init : fs) (ks : list ctor) (steps : list (op * out)) (final : fs)
   (** resolve probe: through the stack built by [ks] (caches allowed) a WriteFile with raw
       argument [s] succeeded and the one file it changed in the root backend is [p] *)
-| CRes (ks : list cctor) (s : bytes) (p : path).
+| CRes (ks : list cctor) (s : bytes) (p : path)
+  (** child view of a cache: [ks] = NewMemCache on the memfs root [init], then Filespace(..)
+      one or more times; one operation through the view, then Commit; compared: what the
+      operation returned and the ROOT (= remote) tree after the Commit *)
+| CSub (init : fs) (ks : list cctor) (o : op) (expect : out) (final : fs).
 
 Fixpoint run_steps (c : chain) (t : fs) (l : list (op * out)) : option fs :=
   match l with
@@ -37,6 +41,13 @@ Definition check (c : case) : bool :=
       match resolve true ch s with Some q => path_eqb q p | None => false end
     | None => false
     end
+  | CSub init ks o expect final =>
+    match cbuild [] ks with
+    | Some [LSub base; LCache] =>
+      let (c', r) := sub_cache_step base (new_cache init) o in
+      out_eqb r expect && tree_eqb (cR (fst (cache_step c' CCommit))) final
+    | _ => false
+    end
   end.
 
 Definition debug (c : case) :=
@@ -47,4 +58,9 @@ Definition debug (c : case) :=
     | None => (None, [])
     end
   | CRes ks s p => (cbuild [] ks, [])
+  | CSub init ks o expect final =>
+    match cbuild [] ks with
+    | Some [LSub base; LCache] => (cbuild [] ks, [snd (sub_cache_step base (new_cache init) o)])
+    | _ => (cbuild [] ks, [])
+    end
   end.
